@@ -5,7 +5,7 @@ import re
 
 from ..facts import callee, show, site, unwrap, walk
 from ..symx import TooManyPaths, all_calls, closure_paths, cshow, paths_of, simp, tshow
-from ..terms import display_norm, is_call, mentions, same, subterms
+from ..terms import display_norm, is_call, mentions, opt_polarity, same, subterms
 
 CMD = ("var", "cmd")
 
@@ -145,7 +145,7 @@ def check(run, views, tier):
                     present = None
                     for c in p.conds:
                         if c[0] == "match" and field_of(c[1], CMD, fld):
-                            present = (c[3] is True) if isinstance(c[3], bool) else not c[2].startswith("!")
+                            present = opt_polarity(c)
                     sets = [x for x in subterms(req) if suffix(x, "PrintJobBuilder::" + setter)]
                     if present:
                         ok = len(sets) == 1 and sets[0][2][1][0] == "proj" and field_of(sets[0][2][1][1], CMD, fld)
